@@ -80,10 +80,15 @@ func (c *Ctx) loopWrites(fr *Frame, li *loopInfo) (cells map[interface{}]bool, f
 	cells = map[interface{}]bool{}
 	fields = map[string][]baseRef{}
 	whole = map[string]bool{}
+	direct := map[interface{}]bool{}
+	defer func() {
+		c.directStores = direct
+	}()
 	addAddr := func(a ssa.Value) {
 		switch x := a.(type) {
 		case *ssa.Alloc:
 			cells[x] = true
+			direct[x] = true
 		case *ssa.FreeVar:
 			cells[x] = true
 		case *ssa.Global:
@@ -265,6 +270,7 @@ func (c *Ctx) enterLoopHead(st *State, fr *Frame, li *loopInfo, pred *ssa.BasicB
 	}
 	// havoc
 	cells, fields, whole, all := c.loopWrites(fr, li)
+	directOnly := c.directStores
 	for _, key := range sortedCellKeys(cells) {
 		cur, ok := st.cells[key]
 		var t interface{ }
@@ -287,6 +293,11 @@ func (c *Ctx) enterLoopHead(st *State, fr *Frame, li *loopInfo, pred *ssa.BasicB
 					continue
 				}
 				nv := c.freshTyped(st, "lh_"+k.Comment, et)
+				if ct, isT := cur.(Term); ok && isT && ct.Sort.isSeq() && st.fresh[ct.S] && !directOnly[key] {
+					// the loop writes this slice only element-wise: it stays the same freshly allocated array
+					st.fresh[nv.S] = true
+					st.assume(eq(lenOf(nv), lenOf(ct)))
+				}
 				if nv.Sort == SInt && isStructPtr(et) {
 					c.assumeAlive(st, nv)
 				}
